@@ -17,6 +17,7 @@ type Obligation struct {
 	Props   []string
 	Text    string // human-readable clause or site
 	Script  string // full SMT-LIB query (sat = violated)
+	Sliced  string // same query with unrelated quantified assumptions dropped (unsat here implies unsat of Script)
 	Path    int
 	Trivial bool // goal simplified to true syntactically
 	Must    bool // mustfail: expected NOT to be discharged
@@ -98,6 +99,7 @@ type Exec struct {
 	ordinals    map[string]int
 	assumptions map[string]bool
 	retCount    int
+	symCache    map[string][]string
 	nerr        int
 	inlineStack []*ssa.Function
 	pkgShort    string
@@ -186,6 +188,23 @@ func (x *Exec) obligeX(st *State, kind, name string, props []string, goal Term, 
 	}
 	sb.WriteString("(check-sat)\n")
 	o.Script = sb.String()
+	if !cover && !must {
+		if keep, dropped := x.sliceAssumptions(st, goal); dropped > 0 {
+			var sl strings.Builder
+			sl.WriteString("; sliced: " + fmt.Sprint(dropped) + " quantified assumptions dropped\n%%PRELUDE%%\n")
+			for _, d := range st.defs {
+				sl.WriteString(d)
+				sl.WriteString("\n")
+			}
+			for i, a := range st.pc {
+				if keep[i] {
+					sl.WriteString("(assert " + a.S + ")\n")
+				}
+			}
+			sl.WriteString("(assert (not " + goal.S + "))\n(check-sat)\n")
+			o.Sliced = sl.String()
+		}
+	}
 	x.obls = append(x.obls, o)
 }
 
@@ -195,6 +214,9 @@ func (x *Exec) finalize() {
 	for _, o := range x.obls {
 		if o.Script != "" {
 			o.Script = strings.Replace(o.Script, "%%PRELUDE%%\n", pre, 1)
+		}
+		if o.Sliced != "" {
+			o.Sliced = strings.Replace(o.Sliced, "%%PRELUDE%%\n", pre, 1)
 		}
 	}
 }
@@ -564,6 +586,11 @@ func (x *Exec) initArray(st *State, base Term, et types.Type) {
 		}
 		a := x.classTerm(st, class, 2, srt)
 		inner := Term{fmt.Sprintf("((as const %s) %s)", arr(sInt, srt), z.S), arr(sInt, srt)}
+		if srt == sStr {
+			// cvc5 rejects constant arrays over uninterpreted values: use an axiomatised constant
+			inner = Term{"zero_str_array", arr(sInt, sStr)}
+			x.decls.add("zero_str_array", fmt.Sprintf("(declare-const zero_str_array (Array Int Str))\n(assert (forall ((i Int)) (! (= (select zero_str_array i) %s) :pattern ((select zero_str_array i)))))", z.S))
+		}
 		nt := mkStore(a, base, inner)
 		x.nsym++
 		name := quoteSym(fmt.Sprintf("H:%s!%d", class, x.nsym))
